@@ -5,7 +5,7 @@
 (* carries the client's identity state, SyncApply also the decoded files.    *)
 EXTENDS Client, Json
 CONSTANTS DiagLine, RInvSel
-VARIABLES l, served   \* served: what the currently picked server was serving
+VARIABLES l, served   \* served[x]: what the server picked by round x was serving at the pick
 tvars == <<cvars, svars, l, served>>
 Trace == ndJsonDeserialize("trace.ndjson")
 Ev == Trace[l]
@@ -23,12 +23,16 @@ UState(st) == [gca |-> st.gca, id |-> st.id, srv |-> UMap(st.srv)]
 
 MatchMem(st) == cgca' = st.gca /\ cid' = st.id /\ csrv' = UMap(st.srv)
 MatchDisk(f) == cdisk' = UState(f)
-NoServed == [mode |-> "none"]
+NoServedR == [mode |-> "none"]
+NoServed == [x \in RoundIds |-> NoServedR]
+(* the round an event belongs to: the driver names the goroutine; events of   *)
+(* histories with one round at a time carry no name                           *)
+Rid == IF "rid" \in DOMAIN Ev THEN Ev.rid ELSE "r1"
 
-(* what the previous pick served did not yield an acceptable reply *)
-PrevFailedOK(dev) ==
-  served.mode # "reply" \/
-  ParseOutcome(UReply(served.reply), [server |-> primary, gca |-> rnd.gca, dev |-> dev]) # "ok"
+(* what the previous pick of round x served did not yield an acceptable reply *)
+PrevFailedOK(x, dev) ==
+  served[x].mode # "reply" \/
+  ParseOutcome(UReply(served[x].reply), [server |-> rnd[x].cur, gca |-> rnd[x].gca, dev |-> dev]) # "ok"
 
 TReset ==
   /\ Ev.a = "Reset"
@@ -44,38 +48,40 @@ TStart ==
   /\ MatchMem(Ev.state)
   /\ served' = NoServed
 TBegin ==
-  /\ Ev.a = "SyncBegin" /\ RoundBegin /\ MatchMem(Ev.state)
-  /\ served' = NoServed
+  /\ Ev.a = "SyncBegin" /\ Rid \in RoundIds /\ RoundBegin(Rid) /\ MatchMem(Ev.state)
+  /\ served' = [served EXCEPT ![Rid] = NoServedR]
 TPick ==     \* a new pick: the previous one (if any) failed
-  /\ Ev.a = "SyncPick"
-  /\ (rnd.attempts > 0 => PrevFailedOK(Ev.dev))
-  /\ LET f == IF rnd.attempts > 0 THEN rnd.failed \cup {primary} ELSE rnd.failed IN
-     /\ rnd.phase = "picking" /\ rnd.attempts < 5
-     /\ Ev.server \in DOMAIN csrv /\ ~csrv[Ev.server].banned /\ Ev.server \notin f   \* NeverSelectBanned
-     /\ primary' = Ev.server
-     /\ rnd' = [rnd EXCEPT !.failed = f, !.attempts = @ + 1]
+  /\ Ev.a = "SyncPick" /\ Rid \in RoundIds
+  /\ LET x == Rid IN
+     /\ (rnd[x].attempts > 0 => PrevFailedOK(x, Ev.dev))
+     /\ LET f == IF rnd[x].attempts > 0 THEN rnd[x].failed \cup {rnd[x].cur} ELSE rnd[x].failed IN
+        /\ rnd[x].phase = "picking" /\ rnd[x].attempts < 5
+        /\ Ev.server \in DOMAIN csrv /\ ~csrv[Ev.server].banned /\ Ev.server \notin f   \* NeverSelectBanned
+        /\ primary' = Ev.server
+        /\ rnd' = [rnd EXCEPT ![x].failed = f, ![x].attempts = @ + 1, ![x].cur = Ev.server]
+     /\ served' = [served EXCEPT ![x] = [mode |-> Ev.serving.mode, reply |-> Ev.serving.reply]]
   /\ MatchMem(Ev.state) /\ UNCHANGED <<cdisk, mutex>>
-  /\ served' = [mode |-> Ev.serving.mode, reply |-> Ev.serving.reply]
 TApply ==
-  /\ Ev.a = "SyncApply"
-  /\ served.mode = "reply"
-  /\ ApplyReply(UReply(served.reply))
-  /\ served.reply.key = Ev.dev
+  /\ Ev.a = "SyncApply" /\ Rid \in RoundIds
+  /\ served[Rid].mode = "reply"
+  /\ ApplyReply(Rid, UReply(served[Rid].reply))
+  /\ served[Rid].reply.key = Ev.dev
   /\ MatchMem(Ev.state) /\ MatchDisk(Ev.files)
-  /\ served' = NoServed
+  /\ served' = [served EXCEPT ![Rid] = NoServedR]
 TEnd ==
-  /\ Ev.a = "RoundEnd"
+  /\ Ev.a = "RoundEnd" /\ Rid \in RoundIds
   /\ Ev.panic = ""
   /\ Ev.lockfree                                     \* LockFreeAtReturn
-  /\ IF Ev.ok THEN rnd.phase = "idle" /\ UNCHANGED svars
-     ELSE /\ rnd.phase = "picking"
-          /\ (rnd.attempts > 0 => PrevFailedOK(Ev.dev))
-          /\ LET f == IF rnd.attempts > 0 THEN rnd.failed \cup {primary} ELSE rnd.failed IN
-             (rnd.attempts >= 5 \/ {k \in DOMAIN csrv : ~csrv[k].banned /\ k \notin f} = {})
-          /\ rnd' = Idle /\ UNCHANGED <<cgca, cid, csrv, primary, cdisk, mutex>>
+  /\ LET x == Rid IN
+     IF Ev.ok THEN rnd[x].phase = "idle" /\ UNCHANGED svars
+     ELSE /\ rnd[x].phase = "picking"
+          /\ (rnd[x].attempts > 0 => PrevFailedOK(x, Ev.dev))
+          /\ LET f == IF rnd[x].attempts > 0 THEN rnd[x].failed \cup {rnd[x].cur} ELSE rnd[x].failed IN
+             (rnd[x].attempts >= 5 \/ {k \in DOMAIN csrv : ~csrv[k].banned /\ k \notin f} = {})
+          /\ rnd' = [rnd EXCEPT ![x] = IdleR] /\ UNCHANGED <<cgca, cid, csrv, primary, cdisk, mutex>>
   /\ (cgca' = Ev.state.gca /\ cid' = Ev.state.id /\ csrv' = UMap(Ev.state.srv))
   /\ cdisk' = UState(Ev.files)
-  /\ served' = NoServed
+  /\ served' = [served EXCEPT ![Rid] = NoServedR]
 TProbe ==    \* after the round the report loop still completes an iteration
   /\ Ev.a = "LoopProbe" /\ Ev.ok
   /\ UNCHANGED <<svars, served>>
